@@ -56,11 +56,32 @@ def gen_wire(rng, faulty):
     kind = "script" if rng.random() < 0.75 else "varint"
     if kind == "script":
         msgs = [gen_script(rng) for _ in range(rng.randint(1, 5) if rng.random() < 0.7 else 1)]
+        x = rng.random()
+        if x < 0.04:
+            # total serialised length right at a length-prefix boundary (252..256 bytes: 0xfc / 0xfd forms)
+            tgt = rng.choice([250, 251, 252, 253, 254, 255, 256, 257])
+            first = rng.choice([74, 75, 76, 100])
+            rest = tgt - (first + (1 if first <= 75 else 2))
+            body = [{"d": rng.randbytes(first).hex()}]
+            while rest > 0:
+                n = min(rest - 1, 75) if rest > 1 else 0
+                if n <= 0:
+                    body.append(0x51)
+                    rest -= 1
+                else:
+                    body.append({"d": rng.randbytes(n).hex()})
+                    rest -= n + 1
+            msgs[0] = body
+        elif x < 0.045:
+            # a script of >= 65536 bytes (0xfe length prefix): ~130 elements of ~515 bytes
+            msgs = [[{"d": rng.randbytes(rng.randint(505, 520)).hex()} for _ in range(rng.randint(126, 132))]]
         if rng.random() < 0.08 and not faulty:
             # refusal / out-of-domain probes: 521 must be refused; 0 is outside the property's domain
             msgs = [[{"d": "00" * rng.choice([521, 521, 600, 0])}]]
     else:
-        msgs = [rng.choice(VARINTS + [rng.getrandbits(rng.choice([7, 8, 15, 16, 17, 31, 32, 33, 63, 64]))])
+        msgs = [rng.choice(VARINTS + [rng.getrandbits(rng.choice([7, 8, 15, 16, 17, 31, 32, 33, 63, 64])),
+                                      2 ** 31 + rng.getrandbits(31), 2 ** 32 + rng.getrandbits(16),
+                                      2 ** 63 + rng.getrandbits(63), 0x10000 + rng.getrandbits(8)])
                 for _ in range(rng.randint(1, 5))]
         if rng.random() < 0.1 and not faulty:
             msgs = [2 ** 64 + rng.randrange(3)]
@@ -203,7 +224,18 @@ def _run_child(plan):
                     pc = "bare" if n <= 75 else "pushdata1" if n <= 255 else "pushdata2" if n <= 520 else "over"
                     stats["push_classes"][pc] = stats["push_classes"].get(pc, 0) + 1
                 try:
-                    ser = Script(list(cmds)).serialize()
+                    if len(cmds) >= 2 and (wi + mi) % 5 == 0:
+                        k_ = len(cmds) // 2
+                        a_, b_ = Script(list(cmds[:k_])), Script(list(cmds[k_:]))
+                        sobj = a_ + b_
+                        ser = sobj.serialize()
+                        if a_.cmds != list(cmds[:k_]) or b_.cmds != list(cmds[k_:]) or sobj.serialize() != ser:
+                            add("C19/add-aliases-operands", {"clause": "round-trip", "via": "__add__"}, {"wire": wi})
+                    else:
+                        sobj = Script(list(cmds))
+                        ser = sobj.serialize()
+                        if sobj.serialize() != ser:
+                            add("C19/second-serialisation-differs", {"clause": "round-trip"}, {"wire": wi})
                     exc = None
                 except Exception as e:
                     ser, exc = None, type(e).__name__
@@ -309,6 +341,39 @@ def _run_child(plan):
                 add("C19/consumed-wrong-byte-count", {"clause": "byte-accounting", "kind": w["kind"]},
                     {"wire": wi, "message": n_ok, "fault": fdesc, "consumed": after - before, "declared": ref_end - before})
                 break
+            if w["kind"] == "script":
+                # the PARSED object itself must serialise to the standard minimal form of its elements (whatever
+                # spelling it was parsed from), refuse elements over 520 bytes, and stay correct when extended
+                lens_ = [len(c) for c in ref_cmds if not isinstance(c, int)]
+                if all(n >= 1 for n in lens_):
+                    try:
+                        again = got.serialize()
+                        exc2 = None
+                    except Exception as e:
+                        again, exc2 = None, type(e).__name__
+                    if any(n > 520 for n in lens_):
+                        if exc2 is None:
+                            add("C19/oversize-element-serialised", {"clause": "over-520-refused", "via": "parsed-object"},
+                                {"wire": wi, "message": n_ok, "element_lengths": lens_[:8]})
+                            break
+                    else:
+                        want2 = sr.ref_serialize(ref_cmds)
+                        if again != want2:
+                            add("C19/parsed-script-reserialises-differently", {"clause": "minimal-push", "via": "parsed-object"},
+                                {"wire": wi, "message": n_ok, "fault": fdesc, "library": (again or exc2 or b"")[:60].hex()
+                                 if isinstance(again, bytes) else exc2, "standard": want2[:60].hex()})
+                            break
+                        try:
+                            ext = (got + Script([0xac])).serialize()
+                            got.cmds.append(0x87)
+                            ext2 = got.serialize()
+                            got.cmds.pop()
+                        except Exception as e:
+                            ext, ext2 = type(e).__name__, None
+                        if ext != sr.ref_serialize(ref_cmds + [0xac]) or ext2 != sr.ref_serialize(ref_cmds + [0x87]):
+                            add("C19/extended-parsed-script-serialises-stale", {"clause": "round-trip", "via": "parsed-object"},
+                                {"wire": wi, "message": n_ok})
+                            break
             if fault is None:
                 # fault-free: equals what was written and re-serialises to the identical bytes
                 if w["kind"] == "script":
